@@ -663,7 +663,14 @@ class Built:
         attrs = {"template": src, "get_context_data": get_context_data, "on_render_before": on_render_before,
                  "on_render_after": on_render_after, "__module__": "harness.tplgen"}
         attrs.update(d.get("pyattrs", {}))
-        return type(d.get("clsname") or ("Gen_" + d["name"]), (Component,), attrs)
+        bases = (Component,)
+        if d.get("mixins"):
+            from django_components import Component as RealComponent
+            mix = tuple(type("Mix%d_%s" % (j, d.get("clsname") or d["name"]), (RealComponent,),
+                             {"Media": type("Media", (), {"js": list(m["mjs"]), "css": list(m["mcss"])}), "__module__": "harness.tplgen"})
+                        for j, m in enumerate(d["mixins"]))
+            bases = mix if Component is RealComponent else (Component,) + mix
+        return type(d.get("clsname") or ("Gen_" + d["name"]), bases, attrs)
 
     def close(self):
         for n in self.names:
